@@ -919,3 +919,15 @@ pub mod verif_access {
         (b.factors.to_vec(), b.larges.to_vec())
     }
 }
+
+#[cfg(yamaquasi_verif)]
+pub mod verif_access2 {
+    /// The stage 2 row (reported B2, d1, d2) selected for a requested B2, and the
+    /// threshold above which the polynomial evaluation stage 2 is used.
+    pub fn stage2_params(b2: f64) -> ((f64, u64, u64), f64) {
+        (super::stage2_params(b2), super::MULTIEVAL_THRESHOLD)
+    }
+    pub fn stage2_table() -> Vec<(f64, u64, u64)> {
+        super::STAGE2_PARAMS.to_vec()
+    }
+}
